@@ -435,7 +435,7 @@ def w_state(ctx: core.Ctx, arg):
     from sdc11073.wsdiscovery import networkingthread as nt
     rng = ctx.rng('state', arg['i'])
     plan = []
-    for bi, backlog in enumerate(STATE_BACKLOGS + ([1990] if arg['i'] == 0 else []) + ([1200, 1985] if not ctx.quick else [])):
+    for bi, backlog in enumerate(STATE_BACKLOGS + ([1900] if arg['i'] == 0 else []) + ([1200, 1850] if not ctx.quick else [])):
         for age in ('future', 'due'):
             if (bi + (age == 'due')) % arg['of'] == arg['i'] % arg['of']:
                 plan.append((backlog, age))
@@ -446,7 +446,7 @@ def w_state(ctx: core.Ctx, arg):
         wsd, thread = mk_node(clock, rnd)
         idmem = rng.random() < 0.3
         if idmem:  # the node has a history: its memory of known ids is full (real receive path)
-            foreign = c15_sim.Foreign()
+            foreign = c15_sim.Foreign(clock, rnd)
             for j in range(ID_WINDOW + 5):
                 thread.multi_in.inbox.append((foreign.make('hello', j)[0], ('10.0.0.7', 3702)))
             while thread.multi_in.inbox:
@@ -472,6 +472,9 @@ def w_state(ctx: core.Ctx, arg):
                     addr = (MC, 3702) if rng.random() < 0.5 else (f'10.0.0.{serial % 250}', 3702 + serial % 7)
                     now = clock.now
                     qsize = thread._send_queue.qsize()
+                    if qsize + 64 > thread._send_queue.maxsize > 0:
+                        ctx.count('state.skipped_queue_bound')  # put() would block for ever without a running send thread
+                        continue
                     rnd.calls.clear()
                     thread.add_outbound_message(cm, addr[0], addr[1], params)
                     entries = sorted((e.send_time, e.repeat) for e in thread._send_queue.queue if e.msg.created_message is cm)
@@ -548,6 +551,9 @@ def _directed_scripts(thorough):
     for mode in ('hi', 'lo', 'rand'):
         for how in ('graceful', 'abrupt'):
             out.append((f'stop.{how}', mode, [(0, ('publish', 0)), (0, ('publish', 1)), (0.05, ('probe',)), (0.1, ('recv', 'probe', 1, 1, 0)), (0.3, ('stop', how))], {}))
+    # the loop is idle (empty queue) and has just fallen asleep when a message that is due at once is created
+    for phase in (0.0, 0.5, 1.0):
+        out.append(('idle_wakeup', 'lo', [(0.3, ('publish', 0)), (3.2, ('probe',)), (6.0, ('recv', 'probe', 1, 1, 0)), (9.0, ('publish', 1))], {'phase': phase}))
     # transient send errors
     for mode in ('lo', 'rand'):
         for every in (2, 3):
@@ -653,6 +659,9 @@ def _judge_sim(ctx, nt, sim, name, opts):
             ctx.extra['id_window_overflow'] = 'observed, reported only with VERIF_C15_IDWINDOW=1: ' + what
     if opts.get('overflow'):
         ctx.count('loopback.id_window_overflow.runs')
+        first_own = min((r['reg'] for r in sim.own.values()), default=0)
+        if sim.reg - first_own - 1 - len(sim.own_handled) >= ID_WINDOW and sim.stats.get('own_loopbacks', 0) >= 3:
+            ctx.count('loopback.id_window_overflow.decided')  # own transmissions were looped back after >= 200 other ids
     if opts.get('flood_lt_window') and not sim.own_handled and sim.stats.get('own_loopbacks', 0) >= 3:
         ctx.count('sim.flood_lt_window_ignored')
     ctx.case(('sim', name.split('#')[0], sim.rnd.mode, len(sim.own), n_handler, bool(sim.stopped == 'graceful'), custom))
@@ -674,7 +683,7 @@ def w_sim(ctx: core.Ctx, arg):
             if 'custom' in opts:
                 nt.UNICAST_REPEAT_PARAMS, nt.MULTICAST_REPEAT_PARAMS = _rand_params(nt, srng), _rand_params(nt, srng)
             sim = Sim(srng, mode=mode, start=opts.get('start', 1_790_000_000.0 + srng.random() * 1000), loop_delay=opts.get('loop_delay', 0.0),
-                      max_ticks=opts.get('max_ticks', 6000))
+                      max_ticks=opts.get('max_ticks', 6000), phase=opts.get('phase', 'rand'))
             sim.run(script)
             _judge_sim(ctx, nt, sim, name, opts)
         finally:
@@ -704,7 +713,7 @@ def run(ctx: core.Ctx):
     for k in range(n_state):
         jobs.append(['w_state', {'i': k, 'of': n_state}])
     for k in range(n_sim):
-        jobs.append(['w_sim', {'i': k, 'of': n_sim, 'n_random': 12 if ctx.quick else 150}])
+        jobs.append(['w_sim', {'i': k, 'of': n_sim, 'n_random': 50 if ctx.quick else 1200}])
     jobs.sort(key=lambda j: {'w_sim': 0, 'w_state': 1}.get(j[0], 2))  # the long ones first
     core.fanout(ctx, MODULE, 'dispatch', jobs)
     ctx.exhaustive = True
@@ -738,6 +747,7 @@ def run(ctx: core.Ctx):
     ctx.floor('sim.pending_at_stop', 30)
     ctx.floor('sim.flood_lt_window_ignored', 5)
     ctx.floor('loopback.id_window_overflow.runs', 3)
+    ctx.floor('loopback.id_window_overflow.decided', 3)
     ctx.assumptions += ['time and random are looked up as module globals of networkingthread (replaced by a virtual clock / enumerating stub)',
                         'sockets and selectors are fakes; the kernel UDP path is not exercised',
                         'node runs (5) are single-threaded: harness actions happen inside the sleeps of the real send loop, the receive side is '
